@@ -70,6 +70,14 @@ Proof.
 Qed.
 Print Assumptions C25_failed_pre.
 
+(* A box's entry preconditions are met exactly when every one of its preacts
+   returns a truthy value (None, 0, 0.0, '' and [] are not met, like False;
+   1, 'x', an object are met, like True). *)
+Theorem C25_met_is_truthy : forall F fs b,
+  snd (box_predo F fs b) = forallb (fun i => truthy (preact_value fs b i)) (seq 0 (cnt F KPre b)).
+Proof. intros. apply box_predo_truthy. Qed.
+Print Assumptions C25_met_is_truthy.
+
 (* The first pass enters the first pile top-down, or nothing at all when a
    precondition fails. *)
 Theorem C25_start : forall F fs first,
@@ -141,13 +149,13 @@ Proof. exact no_crash. Qed.
 Print Assumptions C25_no_crash.
 
 (* Non-vacuity.  Forest 0 > (1 > (2, 3), 4), two acts in every list.  From
-   active box 3 the goact of box 1 fires to 4 (rejected: preact 0 of 4 fails)
+   active box 3 the goact of box 1 fires to 4 (rejected: preact 0 of 4 returns None, which is falsy)
    and then to 2 (taken): boxes 0 and 1 are retained. *)
 Example C25_example :
   let F := forest_of [None; Some 0; Some 1; Some 1; Some 0] [1; 1; 1; 1; 1; 0; 0; 2; 1; 1] in
-  let r := pass F [(4, 0)] [(1, 0, 4); (1, 1, 2)] 3 in
+  let r := pass F [(4, 0, PNone)] [(1, 0, 4); (1, 1, 2)] 3 in
   pile F 3 = [0; 1; 3] /\ candidates F [(1, 0, 4); (1, 1, 2)] 3 = [4; 2] /\
-  chosen F [(4, 0)] [(1, 0, 4); (1, 1, 2)] 3 = Some 2 /\ fst r = Active 2 /\
+  chosen F [(4, 0, PNone)] [(1, 0, 4); (1, 1, 2)] 3 = Some 2 /\ fst r = Active 2 /\
   structural (snd r) =
     [E 8 3 0; E 9 1 0; E 9 0 0; E 1 0 0; E 2 0 0; E 1 1 0; E 2 1 0; E 3 2 0; E 4 2 0] /\
   snd (step F (Active 2) End) = [E 8 2 0; E 8 1 0; E 8 0 0] /\
